@@ -210,15 +210,25 @@ def _check_filter(prog, res, fi: FuncInfo, call: ast.Call) -> None:
         res.violation("C10.R1", fi, call, "indices of the bin assignment are used without filtering the out-of-range values 0 and N+1 (objects outside the binning are counted)", key_extra="no-range-filter")
         return
     ok_any = False
+
+    def rejects(t) -> bool:
+        """the test selects what is SKIPPED: `if <t>: continue` / `if <t>: pass else: <use>`"""
+        par = pm.get(id(t))
+        if isinstance(par, ast.If) and par.test is t:
+            skip = lambda body: bool(body) and all(isinstance(x, (ast.Continue, ast.Pass)) or (isinstance(x, ast.Expr) and isinstance(x.value, ast.Constant)) for x in body)  # noqa: E731
+            return skip(par.body) and (not par.orelse or not skip(par.orelse))
+        return False
+
     for t in tops:
         vals = {}
         try:
             tx = _expand_locals(fn, t, idx)
+            neg = rejects(t)
             for i in (0, 1, N, N + 1):
                 env = {nm: i for nm in idx}
                 for lt in len_texts | num_texts:
                     env[lt] = N
-                vals[i] = bool(ceval(tx, env))
+                vals[i] = bool(ceval(tx, env)) != neg
         except Unknown:
             continue
         if vals == {0: False, 1: True, N: True, N + 1: False}:
